@@ -25,7 +25,7 @@ METHODS = ["GET", "post", "DELETE"]
 URLS = ["https://Example.com/p", "HTTPS://EXAMPLE.COM:443/p", "https://example.com:8443/p", "http://example.com:80/a/b", "http://example.com:443/x",
         "https://example.com:80/x", "https://example.com", "https://example.com/", "https://example.com/a%20b/c", "https://example.com/p;v=1",
         "http://localhost:8080/r"]
-QUERIES = ["", "a=1", "b=2&a=1&a=0", "a=%20+b", "c=%7E~-._", "na%C3%AFve=%E2%9C%93", "x=&y", "a=1&a=1", "q=%26%3D%25", "realm=foo", "oauth_zzz=1%252"]
+QUERIES = ["", "n=e%CC%81&m=%C3%A9", "a=1", "b=2&a=1&a=0", "a=%20+b", "c=%7E~-._", "na%C3%AFve=%E2%9C%93", "x=&y", "a=1&a=1", "q=%26%3D%25", "realm=foo", "oauth_zzz=1%252"]
 BODIES = [None, "", "b=2", "a=1&z=%20", "a=1", "realm=r1", "k=v+w&k=v%2Bw"]
 PLACEMENTS = ["HEADER", "QUERY", "BODY"]
 SIGMETHODS = ["HMAC-SHA1", "RSA-SHA1", "PLAINTEXT"]
@@ -66,13 +66,15 @@ def cases(rng, tier):
         c = {"method": rng.choice(METHODS), "url": rng.choice(URLS), "query": rng.choice(QUERIES), "body": rng.choice(BODIES),
              "place": rng.choice(PLACEMENTS), "sig": rng.choice(SIGMETHODS), "token": rng.choice([True, False]),
              "realm": rng.choice([None, "photos"]), "host": rng.choice([None, None, "Other.Example:443", "other.example"]),
-             "callback": rng.choice(CALLBACKS), "cs": rng.choice(["csecret", "c&s=%", "秘密"]), "ts": rng.choice(["tsecret", "t s", ""])}
+             "callback": rng.choice(CALLBACKS), "cs": rng.choice(["csecret", "c&s=%", "秘密", "se\u0301cret"]), "ts": rng.choice(["tsecret", "t s", ""])}
         if "oauth_" in c["query"]:
             c["place"] = "QUERY"
         if c["method"] == "GET" and c["place"] == "BODY":
             c["method"] = "POST"
         if len(out) % 4 == 1:
             c["bytes_body"] = True
+        if c["host"] and len(out) % 2:
+            c["host_key"] = ["host", "HOST"][len(out) % 4 // 2]
         if len(out) % 5 == 2 and c["body"]:
             c["ctype"] = ["application/x-www-form-urlencoded; charset=UTF-8", "application/x-www-form-urlencoded;charset=utf-8"][len(out) % 2]      # the media type with a parameter
         if len(out) % 3:
@@ -108,7 +110,8 @@ def sign(c):
     if body is not None:
         headers["Content-Type"] = c.get("ctype") or "application/x-www-form-urlencoded"
     if c["host"]:
-        headers["Host"] = c["host"]
+        # HTTP header names are case-insensitive: the requests / httpx header containers accept any spelling of the name
+        headers[c.get("host_key", "Host") if c.get("signer", "core") != "core" else "Host"] = c["host"]
     kw = dict(client_secret=c["cs"], token="tok" if c["token"] else None, token_secret=c["ts"] if c["token"] else None,
               redirect_uri=c["callback"], rsa_key=priv, signature_method=c["sig"], signature_type=c["place"], realm=c["realm"])
     signer = c.get("signer", "core")
@@ -133,7 +136,8 @@ def sign(c):
         uri, headers, body = ca.prepare(c["method"], url, headers, body if body is not None else "")
     if isinstance(body, bytes):
         body = body.decode()
-    return uri, dict(headers), body
+    canon = {"host": "Host", "authorization": "Authorization", "content-type": "Content-Type"}
+    return uri, {canon.get(k.lower(), k): v for k, v in dict(headers).items()}, body       # as the receiving HTTP server presents them
 
 
 def server_request(c, method, uri, headers, body, cs=None, ts=None):
